@@ -24,7 +24,7 @@ pub struct FaultPlan {
     pub ops: Vec<Op>,
 }
 
-pub fn make_plan(seed: u64, nops: usize, large: bool) -> FaultPlan {
+pub fn make_plan(seed: u64, nops: usize, large: bool, reopen_heavy: bool) -> FaultPlan {
     let mut rng = StdRng::seed_from_u64(seed ^ 0x51ed270b);
     let opts = OptSet {
         memtable: *[300usize, 500, 900].get(rng.gen_range(0..3)).unwrap(),
@@ -75,6 +75,16 @@ pub fn make_plan(seed: u64, nops: usize, large: bool) -> FaultPlan {
             ops.push(Op::Compact { lo: None, hi: None });
         } else {
             ops.push(Op::Reopen { opts: opts.clone() });
+        }
+        if reopen_heavy && rng.gen_bool(0.15) {
+            // a reopen followed at once by a write that spans log blocks: whatever the reopened
+            // log writer believes about its position in the (possibly reused) file matters now
+            ops.push(Op::Reopen { opts: opts.clone() });
+            let k = rng.gen_range(1..=nkeys as i64);
+            let mut v = val(&mut rng);
+            v.len = rng.gen_range(33_000..40_000);
+            v.comp = false;
+            ops.push(Op::Put { k, v });
         }
     }
     FaultPlan {
